@@ -267,7 +267,9 @@ func c17CheckOpt(c *Ctx, cs c17Case) {
 	}
 	// (5b) correspondence with the model
 	model := c17ModelParse(c, file, oc.HasFile, env, args)
-	if d := c17DiffOpt(impl, model, nil); d != "" {
+	if d := c17DiffOpt(impl, model, nil); d != "" && c17PutUnicode(impl.Status, model.Status, append(append(append([]string{}, file...), env...), args...)...) {
+		rep.Count("args:unmodelled-put-unicode")
+	} else if d := c17DiffOpt(impl, model, nil); d != "" {
 		rep.Disagreement(Disagreement{Kind: "corr", Name: "corr:C17.parse_all", Input: cs, Impl: "impl vs model: " + d, Expect: model.Status})
 	}
 	rep.Eval(string(key), impl.Status == "ok" && len(args)+len(env)+len(file) >= 2)
@@ -402,7 +404,8 @@ var c17Opts = []c17OptGen{
 		if r.Chance(1, 4) {
 			return c17GenStr(r)
 		}
-		return Pick(r, []string{"a:up", "ctrl-a:execute(ls)+down", "start:reload(ls)", "start:transform:echo", "a:+down", "b,c:toggle-down", "enter:accept", "a:pos(3)", "start:reload-sync:x"})
+		return Pick(r, []string{"a:up", "ctrl-a:execute(ls)+down", "start:reload(ls)", "start:transform:echo", "a:+down", "b,c:toggle-down", "enter:accept", "a:pos(3)", "start:reload-sync:x",
+			"é:up", "alt-é:down+up", "alt-ö,alt-é:toggle-down", "日:execute(echo 本)"})
 	}},
 	{names: []string{"-s", "--sort", "-m", "--multi", "--gap"}, kind: 2, val: c17Int},
 	{names: []string{"--listen", "--listen-unsafe"}, kind: 3, val: c17Const("6266", "localhost:6266", ":80", "0.0.0.0:1", "a:b:c", "65536", "-1", "x", "", "host:", "[::1]:80")},
